@@ -8,16 +8,28 @@
           events_received / bad_lines_seen after the last one.  The same constructor carries
           the recv stream: the datagrams sent through real sockets (or a scripted PacketConn)
           to a real DatagramReceiver feeding the parser, in a child process.
+   KRecv  the recv stream with one reader: the script of ReadBatch returns (known for the
+          scripted PacketConn, reconstructed from the observed batch sizes for real sockets),
+          the batches a relay between the real receiver and the real parser saw (sender IP,
+          length, bytes, batch index) and the parser's counters; compared with
+          Model/Receiver.receive (batch by batch, slot by slot) and [ingest].
    KHttp  one request to the real ingestion router; compared: the status the client saw
           (None = the connection died without a status) and the number of dispatches, against
           the trace of Model/WireStatus.handle under the library outcomes the harness computed
           by calling zlib / lz4 / proto.Unmarshal itself. *)
 From GS Require Export Base.Bytes Base.CorrLib Model.Lexer Model.LexerLegacy Model.WireStatus
-  Model.DatagramLines Corr.C02.
+  Model.DatagramLines Model.Receiver Corr.C02.
 Local Open Scope N_scope.
+
+(* a datagram as the relay between the real receiver and the real parser saw it; [body] is
+   omitted for big cases (the harness compares the bytes itself); [ts] = index of the batch
+   (all datagrams of one batch carry one timestamp: checked by the harness) *)
+Inductive odgram := ObsD (ip : str) (len : N) (body : option str) (ts : Z) | ObsNil.
 
 Inductive c03case :=
 | KLex (c : lexcase)
+| KRecv (ns : str) (table : list (str * pfres)) (local_unix : bool) (bsize : N)
+        (script : list read_result) (obs : list (list odgram)) (counts : dresult)
 | KDgram (ns : str) (msgs : list str) (table : list (str * pfres)) (obs : dresult)
 | KHttp (ep : endpoint) (enc : str) (o : wire_oracle) (status : option N) (ndispatch : N).
 
@@ -34,8 +46,34 @@ Definition is_miss (o : outcome) : bool :=
 Definition dgram_model (ns : str) (msgs : list str) (table : list (str * pfres)) : dresult :=
   parse_stream (oracle table) ns msgs 0 0 0.
 
+Fixpoint all2 {A B} (f : A -> B -> bool) (a : list A) (b : list B) : bool :=
+  match a, b with
+  | [], [] => true
+  | x :: a', y :: b' => f x y && all2 f a' b'
+  | _, _ => false
+  end.
+
+Definition slot_matches (m : option datagram) (o : odgram) : bool :=
+  match m, o with
+  | Some d, ObsD ip len body ts =>
+      str_eqb ip (d_ip d) && (len =? N.of_nat (length (d_msg d))) && (ts =? d_ts d)%Z
+      && match body with Some b => str_eqb b (d_msg d) | None => true end
+  | None, ObsNil => true
+  | _, _ => false
+  end.
+
+Definition recv_model (u : bool) (bsize : N) (script : list read_result) : option status :=
+  receive (current u) (N.to_nat bsize) (map LRead script).
+
+Definition batches_match (st : option status) (obs : list (list odgram)) : bool :=
+  match st with
+  | Some (Running s) => all2 (all2 slot_matches) (r_handed s) obs
+  | _ => false
+  end.
+
 (* what the model computed for a case, for the failure report *)
 Inductive explanation :=
+| XRecv (batches : option (list (list (option (str * N * Z))))) (r : dresult) (oracle_misses : N)
 | XLex (o : outcome)
 | XDgram (r : dresult) (oracle_misses : N)
 | XHttp (trace : list action).
@@ -46,6 +84,10 @@ Definition misses (ns : str) (msgs : list str) (table : list (str * pfres)) : N 
 Definition check_case (c : c03case) : bool :=
   match c with
   | KLex lc => C02.check_case lc
+  | KRecv ns table u bsize script obs counts =>
+      batches_match (recv_model u bsize script) obs
+      && dresult_eqb counts (ingest (oracle table) ns (current u) (N.to_nat bsize) script)
+      && (misses ns (flat_map read_data script) table =? 0)
   | KDgram ns msgs table obs =>
       dresult_eqb obs (dgram_model ns msgs table) && (misses ns msgs table =? 0)
   | KHttp ep enc o status nd =>
@@ -59,6 +101,14 @@ Definition check_case (c : c03case) : bool :=
 Definition explain_case (c : c03case) : explanation :=
   match c with
   | KLex lc => XLex (C02.model_of lc)
+  | KRecv ns table u bsize script _ _ =>
+      XRecv (match recv_model u bsize script with
+             | Some (Running s) =>
+                 Some (map (map (option_map (fun d => (d_ip d, N.of_nat (length (d_msg d)), d_ts d)))) (r_handed s))
+             | _ => None
+             end)
+            (ingest (oracle table) ns (current u) (N.to_nat bsize) script)
+            (misses ns (flat_map read_data script) table)
   | KDgram ns msgs table _ => XDgram (dgram_model ns msgs table) (misses ns msgs table)
   | KHttp ep enc o _ _ => XHttp (handle ep enc o)
   end.
